@@ -11,6 +11,7 @@ mod c01;
 mod c02;
 mod c03;
 mod c05;
+mod c07;
 mod c08;
 mod c09;
 mod c10;
@@ -31,6 +32,7 @@ fn main() {
         "C02" => c02::run_case,
         "C03" => c03::run_case,
         "C05" | "C06" => c05::run_case,
+        "C07" => c07::run_case,
         "C08" => c08::run_case,
         "C09" => c09::run_case,
         "C10" => c10::run_case,
